@@ -8,7 +8,7 @@ state of its own run.
 namespace PwVerif.ExecNest
 open PwVerif PwVerif.Exec
 
-variable {E : Type}
+variable {E E' : Type}
 
 theorem wf_eff {d : Dag} (kids : Nat → Tree E) (h : WF d) : WF (effDag d kids) :=
   ⟨h.downSpec, h.downNodup, h.noSelf, h.startNodup, h.startRoots, h.rootsStart⟩
@@ -120,5 +120,576 @@ theorem step_st (cfg : Cfg) (d : Dag) (s s' : S) (a : Act) (h : step cfg d s a =
     split at h
     · simp only [Option.some.injEq] at h; subst h; left; rfl
     · cases h
+
+/-- every composite of the tree is properly wired -/
+def NWF : Tree E → Prop
+  | .leaf => True
+  | .comp d _ _ kids => WF d ∧ ∀ k, NWF (kids k)
+
+/-- a child's status in its parent vs. the state of its own run: not started → untouched;
+job over → its loop has ended -/
+def Link (s : S) (k : Nat) (t : Tree E) : Prop :=
+  (s.st k = .idle → Fresh t) ∧ ((s.st k = .done ∨ s.st k = .failed) → t.over = true)
+
+/-- the flat invariant at every level, for the effective wiring -/
+def NInv (cfg : Cfg) : Tree E → Prop
+  | .leaf => True
+  | .comp d _ s kids => Inv cfg (effDag d kids) s ∧ (∀ k, NInv cfg (kids k)) ∧ (∀ k, Link s k (kids k))
+
+theorem fresh_ninv (cfg : Cfg) (t : Tree E) (wf : NWF t) (hf : Fresh t) : NInv cfg t := by
+  induction t with
+  | leaf => trivial
+  | comp d exc s kids ih =>
+    obtain ⟨hs, hk⟩ := hf
+    obtain ⟨wd, wk⟩ := wf
+    refine ⟨?_, fun k => ih k (wk k) (hk k), ?_⟩
+    · subst hs
+      exact init_inv cfg (effDag d kids) (wf_eff kids wd)
+    · intro k
+      exact ⟨fun _ => hk k, by subst hs; simp [init]⟩
+
+theorem nstep_nil (cfg : Cfg) (d : Dag) (exc : Nat → E) (s : S) (kids : Nat → Tree E) (a : Act) (t' : Tree E) :
+    nstep cfg (.comp d exc s kids) [] a = some t' ↔
+      okAct kids a = true ∧ ∃ s', step cfg (effDag d kids) s a = some s' ∧ t' = .comp d exc s' kids := by
+  simp only [nstep]
+  by_cases hok : okAct kids a = true
+  · rw [if_pos hok]
+    cases hs : step cfg (effDag d kids) s a with
+    | none => simp
+    | some s1 =>
+      simp only [Option.map_some, Option.some.injEq, hok, true_and]
+      constructor
+      · intro h; exact ⟨s1, rfl, h.symm⟩
+      · rintro ⟨s', h1, h2⟩; cases h1; exact h2.symm
+  · rw [if_neg hok]; simp [hok]
+
+theorem nstep_cons (cfg : Cfg) (d : Dag) (exc : Nat → E) (s : S) (kids : Nat → Tree E) (k : Nat) (p : List Nat)
+    (a : Act) (t' : Tree E) :
+    nstep cfg (.comp d exc s kids) (k :: p) a = some t' ↔
+      s.st k = .out ∧ ∃ tk, nstep cfg (kids k) p a = some tk ∧ t' = .comp d exc s (updF kids k tk) := by
+  simp only [nstep]
+  by_cases hout : s.st k = .out
+  · rw [if_pos hout]
+    cases hs : nstep cfg (kids k) p a with
+    | none => simp
+    | some t1 =>
+      simp only [Option.map_some, Option.some.injEq, hout, true_and]
+      constructor
+      · intro h; exact ⟨t1, rfl, h.symm⟩
+      · rintro ⟨tk, h1, h2⟩; cases h1; exact h2.symm
+  · rw [if_neg hout]; simp [hout]
+
+/-- a step keeps the shape of the tree: same wiring, same exception table -/
+theorem nstep_shape (cfg : Cfg) (t t' : Tree E) (p : List Nat) (a : Act) (h : nstep cfg t p a = some t') :
+    ∃ d exc s kids s' kids', t = .comp d exc s kids ∧ t' = .comp d exc s' kids' := by
+  cases t with
+  | leaf => simp [nstep] at h
+  | comp d exc s kids =>
+    cases p with
+    | nil =>
+      obtain ⟨_, s', _, rfl⟩ := (nstep_nil ..).mp h
+      exact ⟨d, exc, s, kids, s', kids, rfl, rfl⟩
+    | cons k p =>
+      obtain ⟨_, tk, _, rfl⟩ := (nstep_cons ..).mp h
+      exact ⟨d, exc, s, kids, s, _, rfl, rfl⟩
+
+theorem effDag_upd (d : Dag) (kids : Nat → Tree E) (k : Nat) (dk : Dag) (ek : Nat → E) (sk sk' : S)
+    (kk kk' : Nat → Tree E) (hk : kids k = .comp dk ek sk kk) :
+    effDag d (updF kids k (.comp dk ek sk' kk')) =
+      { effDag d kids with fails := fun i => if i = k then compFailed sk' else (effDag d kids).fails i } := by
+  unfold effDag
+  congr 1 <;>
+  · funext i
+    by_cases hi : i = k
+    · subst hi; simp [updF, hk]
+    · simp [updF, hi]
+
+theorem nstep_inv (cfg : Cfg) (t : Tree E) : ∀ (p : List Nat) (a : Act) (t' : Tree E),
+    NWF t → NInv cfg t → nstep cfg t p a = some t' → NInv cfg t' ∧ NWF t' := by
+  induction t with
+  | leaf => intro p a t' _ _ h; simp [nstep] at h
+  | comp d exc s kids ih =>
+    intro p a t' wf hinv h
+    obtain ⟨wd, wk⟩ := wf
+    obtain ⟨hI, hK, hL⟩ := hinv
+    cases p with
+    | nil =>
+      obtain ⟨hok, s', hs', rfl⟩ := (nstep_nil ..).mp h
+      refine ⟨⟨step_inv cfg _ (wf_eff kids wd) s s' a hI hs', hK, ?_⟩, wd, wk⟩
+      intro k
+      obtain ⟨l1, l2⟩ := hL k
+      rcases step_st cfg _ s s' a hs' k with e | ⟨h1, _, h3⟩ | ⟨h1, h2, h3⟩ | ⟨rfl, h2, h3⟩
+      · exact ⟨fun hi => l1 (e ▸ hi), fun hi => l2 (e ▸ hi)⟩
+      · exact ⟨fun hi => by simp [h3] at hi, fun hi => by simp [h3] at hi⟩
+      · have hleaf : (kids k).over = true := by
+          cases hkk : kids k with
+          | leaf => rfl
+          | comp _ _ _ _ => simp [effDag, hkk] at h2
+        refine ⟨fun hi => ?_, fun _ => hleaf⟩
+        rcases h3 with h3 | h3 <;> simp [h3] at hi
+      · refine ⟨fun hi => ?_, fun _ => by simpa [okAct] using hok⟩
+        rcases h3 with h3 | h3 <;> simp [h3] at hi
+    | cons k p =>
+      obtain ⟨hout, tk, htk, rfl⟩ := (nstep_cons ..).mp h
+      obtain ⟨ik, wk'⟩ := ih k p a tk (wk k) (hK k) htk
+      obtain ⟨dk, ek, sk, kk, sk', kk', e1, e2⟩ := nstep_shape cfg _ _ p a htk
+      refine ⟨⟨?_, ?_, ?_⟩, wd, ?_⟩
+      · rw [e2, effDag_upd d kids k dk ek sk sk' kk kk' e1]
+        apply inv_fails_agree cfg _ _ s hI
+        intro i hi
+        have : i ≠ k := by
+          rintro rfl
+          rcases hi with hi | hi <;> simp [hout] at hi
+        simp [this]
+      · intro j
+        by_cases hj : j = k
+        · subst hj; simpa [updF] using ik
+        · simpa [updF, hj] using hK j
+      · intro j
+        by_cases hj : j = k
+        · subst hj
+          exact ⟨fun hi => by simp [hout] at hi, fun hi => by rcases hi with hi | hi <;> simp [hout] at hi⟩
+        · simpa [updF, hj] using hL j
+      · intro j
+        by_cases hj : j = k
+        · subst hj; simpa [updF] using wk'
+        · simpa [updF, hj] using wk j
+
+theorem nrun_inv (cfg : Cfg) (acts : List (List Nat × Act)) : ∀ (t t' : Tree E),
+    NWF t → NInv cfg t → nrun cfg t acts = some t' → NInv cfg t' ∧ NWF t' := by
+  induction acts with
+  | nil => intro t t' wf hi h; simp [nrun] at h; subst h; exact ⟨hi, wf⟩
+  | cons pa rest ih =>
+    intro t t' wf hi h
+    obtain ⟨p, a⟩ := pa
+    simp only [nrun] at h
+    split at h
+    · rename_i t1 h1
+      obtain ⟨i1, w1⟩ := nstep_inv cfg t p a t1 wf hi h1
+      exact ih t1 t' w1 i1 h
+    · cases h
+
+@[simp] theorem sub_nil (t : Tree E) : t.sub [] = t := by cases t <;> rfl
+@[simp] theorem sub_leaf (p : List Nat) : (Tree.leaf : Tree E).sub p = .leaf := by cases p <;> rfl
+@[simp] theorem sub_cons (d : Dag) (exc : Nat → E) (s : S) (kids : Nat → Tree E) (k : Nat) (p : List Nat) :
+    (Tree.comp d exc s kids).sub (k :: p) = (kids k).sub p := rfl
+
+theorem ninv_sub (cfg : Cfg) (t : Tree E) : ∀ p, NInv cfg t → NInv cfg (t.sub p) := by
+  induction t with
+  | leaf => intro p _; simp [NInv]
+  | comp d exc s kids ih =>
+    intro p h
+    cases p with
+    | nil => simpa using h
+    | cons k p => exact ih k p (h.2.1 k)
+
+theorem nwf_sub (t : Tree E) : ∀ p, NWF t → NWF (t.sub p) := by
+  induction t with
+  | leaf => intro p _; simp [NWF]
+  | comp d exc s kids ih =>
+    intro p h
+    cases p with
+    | nil => simpa using h
+    | cons k p => exact ih k p (h.2 k)
+
+theorem fresh_sub (t : Tree E) : ∀ p, Fresh t → Fresh (t.sub p) := by
+  induction t with
+  | leaf => intro p _; simp [Fresh]
+  | comp d exc s kids ih =>
+    intro p h
+    cases p with
+    | nil => simpa using h
+    | cons k p => exact ih k p (h.2 k)
+
+/-- some function node ended `failed`: at composite `p`, child `i` -/
+def FailedLeafAt (t : Tree E) (p : List Nat) (i : Nat) : Prop :=
+  ∃ d exc s kids, t.sub p = .comp d exc s kids ∧ kids i = .leaf ∧ s.st i = .failed
+
+theorem failedLeafAt_nil (d : Dag) (exc : Nat → E) (s : S) (kids : Nat → Tree E) (i : Nat) :
+    FailedLeafAt (.comp d exc s kids) [] i ↔ kids i = .leaf ∧ s.st i = .failed := by
+  constructor
+  · rintro ⟨d', exc', s', kids', h, h1, h2⟩
+    simp only [sub_nil, Tree.comp.injEq] at h
+    obtain ⟨rfl, rfl, rfl, rfl⟩ := h
+    exact ⟨h1, h2⟩
+  · rintro ⟨h1, h2⟩
+    exact ⟨d, exc, s, kids, by simp, h1, h2⟩
+
+theorem failedLeafAt_cons (d : Dag) (exc : Nat → E) (s : S) (kids : Nat → Tree E) (k : Nat) (p : List Nat) (i : Nat) :
+    FailedLeafAt (.comp d exc s kids) (k :: p) i ↔ FailedLeafAt (kids k) p i := by
+  simp [FailedLeafAt]
+
+theorem fresh_no_failed (t : Tree E) (hf : Fresh t) (p : List Nat) (i : Nat) : ¬ FailedLeafAt t p i := by
+  rintro ⟨d, exc, s, kids, h, _, h2⟩
+  have := fresh_sub t p hf
+  rw [h] at this
+  obtain ⟨rfl, _⟩ := this
+  simp [init] at h2
+
+/-- everything is at rest: nobody out, every composite either never started or through with its loop -/
+def Settled : Tree E → Prop
+  | .leaf => True
+  | .comp d _ s kids =>
+    s.running = [] ∧ (∀ i, s.st i ≠ .out) ∧ (phaseOver s.phase = true ∨ s = init d) ∧ ∀ k, Settled (kids k)
+
+theorem fresh_settled (t : Tree E) (hf : Fresh t) : Settled t := by
+  induction t with
+  | leaf => trivial
+  | comp d exc s kids ih =>
+    obtain ⟨rfl, hk⟩ := hf
+    exact ⟨rfl, by simp [init], Or.inr rfl, fun k => ih k (hk k)⟩
+
+theorem settled_sub (t : Tree E) : ∀ p, Settled t → Settled (t.sub p) := by
+  induction t with
+  | leaf => intro p _; simp [Settled]
+  | comp d exc s kids ih =>
+    intro p h
+    cases p with
+    | nil => simpa using h
+    | cons k p => exact ih k p (h.2.2.2 k)
+
+/-- an ended loop (repaired code: it never aborts) is an exited loop -/
+theorem over_exited (cfg : Cfg) (hc : cfg.startAborts = false) (d : Dag) (s : S) (h : Inv cfg d s)
+    (ho : phaseOver s.phase = true) : s.phase = .exited := by
+  cases hp : s.phase with
+  | run r => simp [hp, phaseOver] at ho
+  | exited => rfl
+  | aborted => have := h.err.abortedCfg hp; simp [hc] at this
+
+theorem over_settled (cfg : Cfg) (hc : cfg.startAborts = false) (t : Tree E) (h : NInv cfg t)
+    (ho : t.over = true) : Settled t := by
+  induction t with
+  | leaf => trivial
+  | comp d exc s kids ih =>
+    obtain ⟨hI, hK, hL⟩ := h
+    have hex := over_exited cfg hc _ s hI ho
+    obtain ⟨_, hr, _⟩ := hI.phase.exited hex
+    have hno : ∀ i, s.st i ≠ .out := by
+      intro i hi
+      have := (hI.core.running i).mpr hi
+      rw [hr] at this; cases this
+    refine ⟨hr, hno, Or.inl ho, ?_⟩
+    intro k
+    obtain ⟨l1, l2⟩ := hL k
+    cases hst : s.st k with
+    | idle => exact fresh_settled _ (l1 hst)
+    | out => exact absurd hst (hno k)
+    | done => exact ih k (hK k) (l2 (Or.inl hst))
+    | failed => exact ih k (hK k) (l2 (Or.inr hst))
+
+/-- repaired code: the collected errors are exactly the failed children -/
+theorem errs_iff_failed (cfg : Cfg) (hc : cfg.startAborts = false) (hr : cfg.reportExecFailure = true)
+    (d : Dag) (s : S) (h : Inv cfg d s) : compFailed s = true ↔ ∃ i, s.st i = .failed := by
+  have hna : s.phase ≠ .aborted := by
+    intro hab; have := h.err.abortedCfg hab; simp [hc] at this
+  constructor
+  · intro hf
+    simp only [compFailed, Bool.or_eq_true, Bool.not_eq_true', beq_iff_eq] at hf
+    rcases hf with hf | hf
+    · cases hl : s.errs with
+      | nil => simp [hl] at hf
+      | cons x xs => exact ⟨x, h.core.errsFailed x (by simp [hl])⟩
+    · exact absurd hf hna
+  · rintro ⟨i, hi⟩
+    rcases h.err.failedSeen i hi with h1 | h1 | h1
+    · simp only [compFailed, Bool.or_eq_true, Bool.not_eq_true', beq_iff_eq]
+      left
+      cases hl : s.errs with
+      | nil => rw [hl] at h1; cases h1
+      | cons x xs => rfl
+    · exact absurd h1 hna
+    · simp [hr] at h1
+
+/-- REPORTED / MARKED, every depth: once a composite's loop has ended, (1) it has failed iff some function
+node somewhere below it failed, and (2) each of its composite children is marked failed iff some function
+node below THAT child failed -/
+theorem over_failed_iff (cfg : Cfg) (hc : cfg.startAborts = false) (hr : cfg.reportExecFailure = true)
+    (t : Tree E) : ∀ d exc s kids, t = .comp d exc s kids → NInv cfg t → phaseOver s.phase = true →
+      (compFailed s = true ↔ ∃ p i, FailedLeafAt t p i) ∧
+      (∀ k, kids k ≠ .leaf → (s.st k = .failed ↔ ∃ q i, FailedLeafAt (kids k) q i)) := by
+  induction t with
+  | leaf => intro d exc s kids h; cases h
+  | comp d0 exc0 s0 kids0 ih =>
+    intro d exc s kids heq hinv ho
+    simp only [Tree.comp.injEq] at heq
+    obtain ⟨rfl, rfl, rfl, rfl⟩ := heq
+    obtain ⟨hI, hK, hL⟩ := hinv
+    have hex := over_exited cfg hc _ s0 hI ho
+    obtain ⟨_, hrun, _⟩ := hI.phase.exited hex
+    have hno : ∀ i, s0.st i ≠ .out := by
+      intro i hi
+      have := (hI.core.running i).mpr hi
+      rw [hrun] at this; cases this
+    have child : ∀ k, kids0 k ≠ .leaf → (s0.st k = .failed ↔ ∃ q i, FailedLeafAt (kids0 k) q i) := by
+      intro k hk
+      cases hkk : kids0 k with
+      | leaf => exact absurd hkk hk
+      | comp dk ek sk kk =>
+        obtain ⟨l1, l2⟩ := hL k
+        have hIk := hK k
+        have hfk : (effDag d0 kids0).fails k = compFailed sk := by simp [effDag, hkk]
+        constructor
+        · intro hf
+          have hov : phaseOver sk.phase = true := by
+            have := l2 (Or.inr hf); rw [hkk] at this; exact this
+          have := hI.core.failedFails k hf
+          rw [hfk] at this
+          rw [← hkk]
+          exact ((ih k dk ek sk kk hkk hIk hov).1).mp this
+        · rintro ⟨q, i, hq⟩
+          cases hst : s0.st k with
+          | idle => rw [← hkk] at hq; exact absurd hq (fresh_no_failed _ (l1 hst) q i)
+          | out => exact absurd hst (hno k)
+          | failed => rfl
+          | done =>
+            exfalso
+            have hov : phaseOver sk.phase = true := by
+              have := l2 (Or.inl hst); rw [hkk] at this; exact this
+            have hcf := ((ih k dk ek sk kk hkk hIk hov).1).mpr ⟨q, i, hkk ▸ hq⟩
+            have := hI.core.doneOk k hst
+            rw [hfk, hcf] at this; cases this
+    refine ⟨?_, child⟩
+    rw [errs_iff_failed cfg hc hr _ s0 hI]
+    constructor
+    · rintro ⟨i, hi⟩
+      cases hki : kids0 i with
+      | leaf => exact ⟨[], i, (failedLeafAt_nil ..).mpr ⟨hki, hi⟩⟩
+      | comp dk ek sk kk =>
+        obtain ⟨q, j, hq⟩ := (child i (by simp [hki])).mp hi
+        exact ⟨i :: q, j, (failedLeafAt_cons ..).mpr hq⟩
+    · rintro ⟨p, i, hp⟩
+      cases p with
+      | nil => exact ⟨i, ((failedLeafAt_nil ..).mp hp).2⟩
+      | cons k q =>
+        have hq := (failedLeafAt_cons ..).mp hp
+        have hk : kids0 k ≠ .leaf := by
+          intro hl
+          rw [hl] at hq
+          obtain ⟨_, _, _, _, h, _⟩ := hq
+          simp at h
+        exact ⟨k, (child k hk).mpr ⟨q, i, hq⟩⟩
+
+theorem all_eq_of_forall (l : List Nat) (k : Nat) (h : ∀ x ∈ l, x = k) : l.all (· == k) = true := by
+  simp only [List.all_eq_true, beq_iff_eq]; exact h
+
+/-- CAUSE, every depth: if exactly one function node failed — at composite `p`, child `i` — the
+exception the ended run raises is a chain of `FailedChildError`s, one per composite on the path, whose
+bottom is the exception that node raised -/
+theorem raised_unique (cfg : Cfg) (hc : cfg.startAborts = false) (hr : cfg.reportExecFailure = true)
+    (t : Tree E) : ∀ (p : List Nat) (i : Nat), NInv cfg t → t.over = true → FailedLeafAt t p i →
+      (∀ p' i', FailedLeafAt t p' i' → p' = p ∧ i' = i) →
+      ∃ e d exc s kids, raised t = some e ∧ t.sub p = .comp d exc s kids ∧ e.root = some (exc i) ∧
+        e.depth = p.length + 1 := by
+  induction t with
+  | leaf =>
+    intro p i _ _ h
+    obtain ⟨_, _, _, _, h, _⟩ := h
+    simp at h
+  | comp d0 exc0 s0 kids0 ih =>
+    intro p i hinv ho hfl huniq
+    have hall := over_failed_iff cfg hc hr _ d0 exc0 s0 kids0 rfl hinv ho
+    obtain ⟨hI, hK, hL⟩ := hinv
+    -- every failed child of this composite is the one on the path
+    cases p with
+    | nil =>
+      obtain ⟨hleaf, hfi⟩ := (failedLeafAt_nil ..).mp hfl
+      have honly : ∀ x ∈ s0.errs, x = i := by
+        intro x hx
+        have hxf := hI.core.errsFailed x hx
+        cases hkx : kids0 x with
+        | leaf => exact (huniq [] x ((failedLeafAt_nil ..).mpr ⟨hkx, hxf⟩)).2
+        | comp _ _ _ _ =>
+          obtain ⟨q, j, hq⟩ := (hall.2 x (by simp [hkx])).mp hxf
+          have := (huniq (x :: q) j ((failedLeafAt_cons ..).mpr hq)).1
+          cases this
+      have hne : s0.errs ≠ [] := by
+        have := (errs_iff_failed cfg hc hr _ s0 hI).mpr ⟨i, hfi⟩
+        intro he; simp [compFailed, he] at this
+        have hna := over_exited cfg hc _ s0 hI ho
+        simp [hna] at this
+      cases hl : s0.errs with
+      | nil => exact absurd hl hne
+      | cons k rest =>
+        have hk : k = i := honly k (by simp [hl])
+        subst hk
+        have hrest : rest.all (· == k) = true :=
+          all_eq_of_forall rest k (fun x hx => honly x (by simp [hl, hx]))
+        refine ⟨.failedChild (some (.orig (exc0 k))), d0, exc0, s0, kids0, ?_, by simp, rfl, rfl⟩
+        simp [raised, hl, hrest, hleaf]
+    | cons k q =>
+      have hq := (failedLeafAt_cons ..).mp hfl
+      have hkc : kids0 k ≠ .leaf := by
+        intro hlf
+        rw [hlf] at hq
+        obtain ⟨_, _, _, _, h, _⟩ := hq
+        simp at h
+      have hkf : s0.st k = .failed := (hall.2 k hkc).mpr ⟨q, i, hq⟩
+      have hov : (kids0 k).over = true := (hL k).2 (Or.inr hkf)
+      have honly : ∀ x ∈ s0.errs, x = k := by
+        intro x hx
+        have hxf := hI.core.errsFailed x hx
+        cases hkx : kids0 x with
+        | leaf =>
+          have := (huniq [] x ((failedLeafAt_nil ..).mpr ⟨hkx, hxf⟩)).1
+          cases this
+        | comp _ _ _ _ =>
+          obtain ⟨q', j, hq'⟩ := (hall.2 x (by simp [hkx])).mp hxf
+          have := (huniq (x :: q') j ((failedLeafAt_cons ..).mpr hq')).1
+          simp only [List.cons.injEq] at this
+          exact this.1
+      obtain ⟨e, dk, ek, sk, kk, he, hsub, hroot, hdep⟩ := ih k q i (hK k) hov hq (by
+        intro p' i' h'
+        have := huniq (k :: p') i' ((failedLeafAt_cons ..).mpr h')
+        simp only [List.cons.injEq, true_and] at this
+        exact this)
+      have hne : s0.errs ≠ [] := by
+        have := (errs_iff_failed cfg hc hr _ s0 hI).mpr ⟨k, hkf⟩
+        intro he'; simp [compFailed, he'] at this
+        have hna := over_exited cfg hc _ s0 hI ho
+        simp [hna] at this
+      cases hl : s0.errs with
+      | nil => exact absurd hl hne
+      | cons k' rest =>
+        have hk' : k' = k := honly k' (by simp [hl])
+        subst hk'
+        have hrest : rest.all (· == k') = true :=
+          all_eq_of_forall rest k' (fun x hx => honly x (by simp [hl, hx]))
+        refine ⟨.failedChild (some e), dk, ek, sk, kk, ?_, by simpa using hsub, by simpa [Err.root] using hroot,
+          by simp [Err.depth, hdep]⟩
+        cases hkk : kids0 k' with
+        | leaf => exact absurd hkk hkc
+        | comp _ _ _ _ =>
+          rw [hkk] at he
+          simp [raised, hl, hrest, hkk, he]
+
+/-! ### the machine does not look at exception classes -/
+
+theorem effDag_mapExc (f : E → E') (d : Dag) (kids : Nat → Tree E) :
+    effDag d (fun k => (kids k).mapExc f) = effDag d kids := by
+  unfold effDag
+  congr 1 <;>
+  · funext i
+    cases hk : kids i <;> simp [Tree.mapExc, hk]
+
+theorem over_mapExc (f : E → E') (t : Tree E) : (t.mapExc f).over = t.over := by
+  cases t <;> simp [Tree.mapExc, Tree.over]
+
+theorem okAct_mapExc (f : E → E') (kids : Nat → Tree E) (a : Act) :
+    okAct (fun k => (kids k).mapExc f) a = okAct kids a := by
+  cases a <;> simp [okAct, over_mapExc]
+
+theorem updF_mapExc (f : E → E') (kids : Nat → Tree E) (k : Nat) (t : Tree E) :
+    (fun j => (updF kids k t j).mapExc f) = updF (fun j => (kids j).mapExc f) k (t.mapExc f) := by
+  funext j
+  by_cases hj : j = k <;> simp [updF, hj]
+
+theorem nstep_mapExc (cfg : Cfg) (f : E → E') (t : Tree E) : ∀ (p : List Nat) (a : Act),
+    nstep cfg (t.mapExc f) p a = (nstep cfg t p a).map (Tree.mapExc f) := by
+  induction t with
+  | leaf => intro p a; simp [Tree.mapExc, nstep]
+  | comp d exc s kids ih =>
+    intro p a
+    cases p with
+    | nil =>
+      simp only [Tree.mapExc, nstep, effDag_mapExc, okAct_mapExc]
+      split
+      · cases step cfg (effDag d kids) s a <;> simp [Tree.mapExc]
+      · rfl
+    | cons k p =>
+      simp only [Tree.mapExc, nstep, ih k p a]
+      split
+      · cases nstep cfg (kids k) p a with
+        | none => rfl
+        | some t1 => simp [Tree.mapExc, updF_mapExc]
+      · rfl
+
+theorem nrun_mapExc (cfg : Cfg) (f : E → E') (acts : List (List Nat × Act)) : ∀ (t : Tree E),
+    nrun cfg (t.mapExc f) acts = (nrun cfg t acts).map (Tree.mapExc f) := by
+  induction acts with
+  | nil => intro t; simp [nrun]
+  | cons pa rest ih =>
+    intro t
+    obtain ⟨p, a⟩ := pa
+    simp only [nrun, nstep_mapExc]
+    cases nstep cfg t p a with
+    | none => rfl
+    | some t1 => simpa using ih t1
+
+theorem raised_mapExc (f : E → E') (t : Tree E) : raised (t.mapExc f) = (raised t).map (Err.map f) := by
+  induction t with
+  | leaf => simp [Tree.mapExc, raised]
+  | comp d exc s kids ih =>
+    simp only [Tree.mapExc, raised]
+    cases s.errs with
+    | nil => rfl
+    | cons k rest =>
+      simp only
+      split
+      · rw [ih k]
+        cases hk : kids k with
+        | leaf => simp [Tree.mapExc, Err.map]
+        | comp dk ek sk kk =>
+          simp only [Tree.mapExc, Option.map_some]
+          cases raised (Tree.comp dk ek sk kk) <;> simp [Err.map]
+      · simp [Err.map]
+
+/-! ### the flat machine is the depth-0 case -/
+
+theorem effDag_flat (d : Dag) : effDag d (fun _ => (Tree.leaf : Tree E)) = d := by
+  cases d; rfl
+
+theorem nstep_flat (cfg : Cfg) (d : Dag) (exc : Nat → E) (s : S) (a : Act) :
+    nstep cfg (.comp d exc s (fun _ => .leaf)) [] a =
+      (step cfg d s a).map (fun s' => .comp d exc s' (fun _ => .leaf)) := by
+  simp only [nstep, effDag_flat]
+  have : okAct (fun _ => (Tree.leaf : Tree E)) a = true := by cases a <;> simp [okAct, Tree.over]
+  simp [this]
+
+/-! ### progress: the guard "a composite child finishes when its loop has ended" never blocks -/
+
+theorem nprogress (cfg : Cfg) (t : Tree E) (h : NInv cfg t) (hno : t.over = false) :
+    ∃ p a t', nstep cfg t p a = some t' := by
+  induction t with
+  | leaf => simp [Tree.over] at hno
+  | comp d exc s kids ih =>
+    obtain ⟨hI, hK, hL⟩ := h
+    cases hp : s.phase with
+    | exited => simp [Tree.over, hp, phaseOver] at hno
+    | aborted => simp [Tree.over, hp, phaseOver] at hno
+    | run r =>
+      obtain ⟨a, s', hs⟩ := progress cfg _ s hI r hp
+      by_cases hok : okAct kids a = true
+      · exact ⟨[], a, _, (nstep_nil ..).mpr ⟨hok, s', hs, rfl⟩⟩
+      · cases a with
+        | complete k =>
+          have hko : (kids k).over = false := by simpa [okAct] using hok
+          have hout : s.st k = .out := by
+            simp only [step, hp] at hs
+            by_cases hk : s.st k = .out
+            · exact hk
+            · simp [hk] at hs
+          obtain ⟨p, a', tk, htk⟩ := ih k (hK k) hko
+          exact ⟨k :: p, a', _, (nstep_cons ..).mpr ⟨hout, tk, htk, rfl⟩⟩
+        | start => simp [okAct] at hok
+        | deliver => simp [okAct] at hok
+        | exit => simp [okAct] at hok
+
+/-! ### finite presentations -/
+
+theorem kidsOf_all (P : Tree E → Prop) (hl : P .leaf) (l : List (Nat × Tree E)) (h : ∀ x ∈ l, P x.2) :
+    ∀ k, P (kidsOf l k) := by
+  intro k
+  unfold kidsOf
+  cases hf : l.find? (fun p => p.1 == k) with
+  | none => exact hl
+  | some x => exact h x (List.mem_of_find?_eq_some hf)
+
+theorem nwf_mkComp (d : Dag) (exc : Nat → E) (l : List (Nat × Tree E)) (wd : WF d) (h : ∀ x ∈ l, NWF x.2) :
+    NWF (mkComp d exc l) :=
+  ⟨wd, kidsOf_all NWF trivial l h⟩
+
+theorem fresh_mkComp (d : Dag) (exc : Nat → E) (l : List (Nat × Tree E)) (h : ∀ x ∈ l, Fresh x.2) :
+    Fresh (mkComp d exc l) :=
+  ⟨rfl, kidsOf_all Fresh trivial l h⟩
 
 end PwVerif.ExecNest
